@@ -175,6 +175,12 @@ def check_d4(chk, m, prog):
             chk.note_fn(f)
             heads = f.loops_headers()
             chk.ob("D4.no-loop", f.name, not heads, "no loop in %s (terminates on every structure)" % f.name, f.loc, f.name)
+            # ... and no recursion: a helper that can reach itself through calls recurses on attacker-chosen fields
+            rec = [c for c in f.calls() if c.callee and m.has_fn(c.callee) and f in prog.closure(m.functions[c.callee])]
+            chk.ob("D4.no-recursion", f.name, not rec,
+                   "%s cannot reach itself through calls" % f.name if not rec else
+                   "%s calls %s, which can reach %s again: the recursion depth is controlled by header fields (stack exhaustion)"
+                   % (f.name, rec[0].callee, f.name), (rec[0].loc if rec else f.loc), f.name)
             ps = paths.enumerate_paths(f, m, call_effects=wav.EFFECTS)
             for p in ps:
                 for k, e in enumerate(p.events):
@@ -219,7 +225,7 @@ def run(chk):
     chk.rule("D1", "input pointer -> rf_pack_init only; local rf_pack_t handed only to rf_(un)pack_*; pack.c cursor sticky and guarded (C12.P1-P3)")
     chk.rule("D2", "success returns sz - rf_pack_remaining() queried after the last item; min over successful walks of the summed item widths == RF_WAVHEADER_MIN_SIZE")
     chk.rule("D3", "every non-constant length passed to a cursor advance is upper-bounded on that path by a constant < 2^31 or by sz/remaining")
-    chk.rule("D4", "helpers: no loops, switches with reachable default, every division by a non-constant dominated by a non-zero test of the same value")
+    chk.rule("D4", "helpers: no loops, no recursion, switches with reachable default, every division by a non-constant dominated by a non-zero test of the same value")
     chk.assumptions += [
         "rf_(un)pack_* never read or write outside [basep, endp) (C12), so reads are confined to the supplied bytes",
         "strdup_printf (libc formatter) terminates and is memory safe",
